@@ -26,6 +26,9 @@ func GenMixScript(r *Rng, hist map[string]int) []string {
 	return out
 }
 
+// concForceAlways makes every generated configuration use SyncStrategy Always (C13's concurrent part).
+var concForceAlways bool
+
 func GenConcScript(r *Rng, stress bool, hist map[string]int) []string {
 	var out []string
 	add := func(format string, a ...interface{}) { out = append(out, "E "+fmt.Sprintf(format, a...)) }
@@ -36,6 +39,10 @@ func GenConcScript(r *Rng, stress bool, hist map[string]int) []string {
 	}
 	if stress && r.Chance(1, 2) {
 		c.shards = r.Pick(1, 2, 3) // many index entries per shard
+	}
+	if concForceAlways {
+		c.sync = 1
+		c.fsize = r.Pick(200, 700, 4096, 1<<20)
 	}
 	add("dir db")
 	add("open %s", c)
@@ -84,6 +91,22 @@ func GenConcScript(r *Rng, stress bool, hist map[string]int) []string {
 			}
 			add("mergei %s", spec)
 			hist["conc_merge_racing"]++
+			add("dump")
+			add("close")
+			c = genCfg(r, o, hist)
+			add("open %s", c)
+			add("dump")
+			continue
+		}
+		if r.Chance(1, 8) {
+			// a running Merge probed by two more Merge calls (both must be refused), then a restart
+			for i := 1 + r.Intn(4); i > 0; i-- {
+				add("put %s %s", keys[r.Intn(3)], val())
+			}
+			add("del %s", keys[r.Intn(3)])
+			add("mergebusy")
+			hist["conc_merge_probed_by_merges"]++
+			add("put %s %s", keys[r.Intn(3)], val())
 			add("dump")
 			add("close")
 			c = genCfg(r, o, hist)
@@ -182,7 +205,9 @@ func init() {
 		kind := fs.String("kind", "quick", "tier")
 		stressEvery := fs.Int("stress", 4, "every n-th scenario is a stress scenario")
 		mix := fs.Bool("mix", false, "C09: only scenarios that mix every kind of call")
+		always := fs.Bool("always", false, "C13: stress scenarios under SyncStrategy Always")
 		_ = fs.Parse(args)
+		concForceAlways = *always
 		_ = kind
 		r := NewRng(*seed)
 		h := map[string]int{}
